@@ -120,10 +120,13 @@ def run_check(prop, tier, seed, out=sys.stdout):
             res, err = call_worker(job, shadow_dir, hs,
                                    run_timeout * max(1, len(idxs)) + 60)
             # a worker killed by a signal (the C decoder crashed on damaged
-            # bytes): re-run the run it died in with isolated reads, then
-            # the rest of the block
+            # bytes) or by its hang guard (the decoder spinning on them):
+            # re-run the run it died in with isolated reads - a reader that
+            # crashes or does not finish is then reported by the check's own
+            # oracle as an unreadable dataset -, then the rest of the block
             guard = 0
-            while err and 'worker exit -' in err and guard < 8:
+            while err and ('worker exit' in err or 'timeout after' in err) \
+                    and guard < 8:
                 guard += 1
                 done = {r.get('idx') for r in res}
                 rest = [i for i in idxs if i not in done]
